@@ -2,8 +2,9 @@
    Model: Conc/CancelScope.v -- one asyncio task running a program of type [prog] (scopes, timeouts, shields,
    explicit cancel / reschedule, try/except), futures, FIFO ready queue, heapq timer heap, virtual clock; the
    controller's task.cancel() comes from timers and from handles injected into any loop iteration (front or back).
-   [init fx p timers turns k] is the initial state (fx = the repair of finding C13-F1 is present in
-   CancelScope.__exit__, read from /repo on every run into Gen/ParamsC13.v; every theorem below holds for both values), [step] one machine step, [run_steps fuel] iterates it. *)
+   [init fx fb p timers turns k] is the initial state; fx = the repair of finding C13-F1 is present in
+   CancelScope.__exit__, fb = __uncancel_task falls back on the CancelledError message (finding C13-F2); both are read
+   from /repo on every run into Gen/ParamsC13.v (unrepaired tree: fx = false, fb = true); the theorems quantify over both., [step] one machine step, [run_steps fuel] iterates it. *)
 From Coq Require Import ZArith List Bool Arith.
 From EN Require Import Conc.CancelScope Proofs.C13_core Proofs.C13_inv.
 Import ListNotations.
@@ -36,8 +37,8 @@ Print Assumptions timeout_iff_caught.
                      + requests a scope had not taken back when it exited (g_leak, incremented only in __exit__)
                      + task.uncancel() calls that found the counter already at zero (g_floor).
    g_ext / g_leak / g_floor are instrumentation counters of the model that no behaviour reads. *)
-Theorem uncancel_accounting : forall fx p timers turns k fuel,
-  let st := run_steps fuel (init fx p timers turns k) in
+Theorem uncancel_accounting : forall fx fb p timers turns k fuel,
+  let st := run_steps fuel (init fx fb p timers turns k) in
   t_cnt st = g_ext st + owed_sum (scopes st) + g_leak st + g_floor st.
 Proof. exact acct_reachable. Qed.
 Print Assumptions uncancel_accounting.
@@ -51,12 +52,12 @@ Print Assumptions uncancel_accounting_step.
 
 (* ---------------------------------------------------------------------------------------------------------------
    no_leftover.  FULL statement wanted by the property (NOT provable -- refuted below):
-     forall fx p timers turns k fuel, let st := run_steps fuel (init fx p timers turns k) in
+     forall fx fb p timers turns k fuel, let st := run_steps fuel (init fx fb p timers turns k) in
        (forall s, In s (scopes st) -> s_host s = false) -> t_cnt st = g_ext st.
    Proved instead (partial): once no scope is active, cancelling() exceeds the controller's own requests exactly by
    what exiting scopes left behind (+ floor hits); so it equals them whenever no scope leaked. *)
-Theorem no_leftover_partial : forall fx p timers turns k fuel,
-  let st := run_steps fuel (init fx p timers turns k) in
+Theorem no_leftover_partial : forall fx fb p timers turns k fuel,
+  let st := run_steps fuel (init fx fb p timers turns k) in
   (forall s, In s (scopes st) -> s_host s = false) ->
   t_cnt st = g_ext st + g_leak st + g_floor st.
 Proof. exact no_leftover_when_balanced. Qed.
@@ -73,7 +74,7 @@ Print Assumptions no_leftover_partial.
 Definition leftover_witness : prog :=
   PScope 1 KMoveOn false (Some 2) (PScope 2 KTimeout false (Some 1) (PSeq (PBlock 3) (PSleep 3 1))).
 Theorem no_leftover_refuted : exists p fuel,
-  let st := run_steps fuel (init false p [] [] 0) in
+  let st := run_steps fuel (init false true p [] [] 0) in
   md st = MDone (Some ETimeout) /\ (forall s, In s (scopes st) -> s_host s = false) /\ g_ext st = 0 /\ t_cnt st = 1.
 Proof.
   exists leftover_witness, 200. vm_compute. repeat split; try reflexivity.
@@ -88,7 +89,7 @@ Theorem repaired_exit_takes_everything_back : forall st calls st' c',
 Proof. intros st calls st' c' F H. apply exit_takeback_acct in H. apply H; [exact F|reflexivity]. Qed.
 Print Assumptions repaired_exit_takes_everything_back.
 Example leftover_witness_repaired :
-  let st := run_steps 200 (init true leftover_witness [] [] 0) in
+  let st := run_steps 200 (init true true leftover_witness [] [] 0) in
   md st = MDone (Some ETimeout) /\ t_cnt st = 0 /\ g_leak st = 0.
 Proof. vm_compute. repeat split; reflexivity. Qed.
 
@@ -96,16 +97,16 @@ Proof. vm_compute. repeat split; reflexivity. Qed.
    Non-vacuity. *)
 (* a scope that swallows: move_on_after(1) around sleep(3) *)
 Example swallow_happens :
-  let st := run_steps 200 (init false (PScope 1 KMoveOn false (Some 1) (PSleep 2 3)) [] [] 0) in
+  let st := run_steps 200 (init false true (PScope 1 KMoveOn false (Some 1) (PSleep 2 3)) [] [] 0) in
   md st = MDone None /\ t_cnt st = 0 /\
   exists t, In (EvExit 1 t true true 0 true 1) (trace st).
 Proof. vm_compute. repeat split; try reflexivity. exists 1. left. reflexivity. Qed.
 (* timeout() raising: *)
 Example timeout_happens :
-  md (run_steps 200 (init false (PScope 1 KTimeout false (Some 1) (PSleep 2 3)) [] [] 0)) = MDone (Some ETimeout).
+  md (run_steps 200 (init false true (PScope 1 KTimeout false (Some 1) (PSleep 2 3)) [] [] 0)) = MDone (Some ETimeout).
 Proof. vm_compute. reflexivity. Qed.
 (* an external cancel goes through a scope that was not cancelled, and stays counted: *)
 Example external_goes_through :
-  let st := run_steps 200 (init false (PScope 1 KMoveOn false (Some 5) (PSleep 2 3)) [1] [] 0) in
+  let st := run_steps 200 (init false true (PScope 1 KMoveOn false (Some 5) (PSleep 2 3)) [1] [] 0) in
   md st = MDone (Some (ECancel None)) /\ t_cnt st = 1 /\ g_ext st = 1 /\ g_leak st = 0.
 Proof. vm_compute. repeat split; reflexivity. Qed.
